@@ -5,7 +5,7 @@ import time
 
 from . import core
 from .core import Violation
-from .verus import run_verus, check_canaries, check_allowed, Undecided, VERIF
+from .verus import run_verus, check_canaries, check_allowed, only_added_statements, Undecided, VERIF
 from .generic import native_search
 
 _unit_cache = {}
@@ -41,6 +41,7 @@ def verus_part(unit, allowed, relevant, tier):
     return {
         'name': unit.upper(), 'engine': 'verus+z3', 'obligations': len(fns), 'discharged': len(fns) - len(failed),
         'failed': ['%s::%s' % (unit.upper(), f) for f in failed], 'kinds': kinds, 'detail': detail,
+        'only_added': bool(failed) and only_added_statements(r, failed),
         'evidence': {'unit': core.summarize_unit(r, relevant), 'canaries': ncan,
                      'assumption_scan': ['%s %s' % (e['kind'], e['item']) for e in r.assumption_scan][:60],
                      'functions': {k: v for k, v in sorted(fns.items())}},
@@ -109,6 +110,8 @@ def run(pid, tier, seed, cfg):
         cmds = [[x.replace('{n}', str(n)) if n else x for x in c] for c in cfg.get('search', [])]
         w, info = native_search(cmds, seed) if cmds else (None, None)
         kinds = sorted(set(k for p in parts for k in p['kinds']))
+        if w is None and all(p.get('only_added') for p in parts if p['failed']):
+            raise Undecided('the only undischarged obligations %s are at statements the uncommitted change added (early return / assertion): they did not exist on the committed tree; no failing input for %s was found' % (failed, pid))
         if w is None and cfg.get('no_witness_undecided'):
             # the contract pins more than the property states (see the property's assumptions): without a
             # failing input for the property itself the run is undecided, not an alarm
